@@ -303,6 +303,20 @@ def run(ctx):
            'the counter increments sit in a loop over ALL tasks of the job nested in the per-submit loop; they must depend on the submit or be guarded by the live task still being Waiting, otherwise a job restored from several submits counts the terminal tasks of earlier submits again',
            rj.loc(inc_blocks[0]), detail)
 
+    # ---- R10.2 (cont.) a cut inside the file header is a torn tail at offset 0
+    jro = prog.body(JR + '::open')
+    cons = [(bi, s_) for o_, b_, bi, s_ in construct_sites(prog, JR) if b_.path == jro.path]
+    partial_ctor = False
+    for bi, s_ in cons:
+        names = s_['rv'][1][3]
+        if 'partial_data_error' in names:
+            o_ = s_['rv'][2][names.index('partial_data_error')]
+            if o_[0] != 'k' or 'true' in str(o_[1]):
+                partial_ctor = True
+    hdr_reads = jro.call_blocks(lambda c: c.endswith(('Read::read_exact', 'Options::deserialize_from')))
+    ctx.ob('R10.2', 'JournalReader::open|header cut short is partial data', partial_ctor and len(cons) >= 2,
+           'JournalReader::open returns a reader positioned at 0 with partial data when the file ends inside its header (0..9 bytes: the first write failed or did not reach the disk); propagating the read error makes every later start refuse the journal although nothing was ever acknowledged from it', jro.loc(hdr_reads[0]) if hdr_reads else jro.loc())
+
 
 def _src_local(b, st):
     rv = st['rv']
